@@ -35,6 +35,11 @@ func init() {
 }
 
 func runC08(c *an.Ctx) {
+	c.Floor("C08-R11", 1)
+	dnssvcWiring(c, "C08-R11", func(dst, src string) bool {
+		n := normName(dst) + " " + normName(src)
+		return strings.Contains(n, "maxudprespsize") || strings.Contains(n, "maxrespsize")
+	}, 1)
 	// ---- R10: truncation keeps the OPT record
 	c.Floor("C08-R10", 1)
 	decide(c, "C08-R10", "dnsserver.truncate", an.DecideCfg{
